@@ -230,11 +230,16 @@ class PositiveWaveFunction(WaveFunctionBase):
 
     @staticmethod
     def autoload(location, gpu=True):
+        # `location` may be an open file object: it is read twice (here for the
+        # sizes, then by `load`), so remember where its data starts
+        start = location.tell() if hasattr(location, "seek") else None
         state_dict = torch.load(location)
         wvfn = PositiveWaveFunction(
             num_visible=len(state_dict["rbm_am"]["visible_bias"]),
             num_hidden=len(state_dict["rbm_am"]["hidden_bias"]),
             gpu=gpu,
         )
+        if start is not None:
+            location.seek(start)
         wvfn.load(location)
         return wvfn
